@@ -59,6 +59,32 @@ Theorem safe_never_rejected_buffered :
 Proof. intros P sep limit sizehint keep_end dec Hne Hl chunks fuel. exact (safe_never_rejected_buffered_l sep limit sizehint keep_end dec Hne Hl chunks fuel). Qed.
 Print Assumptions safe_never_rejected_buffered.
 
+(* Buffer-filling path, ANY input: for every sequence of recv_into fills (non-empty, fitting the exported view) the buffer is
+   the limit-byte allocation made once, and after each round the suspended generator holds at most limit - 2 bytes. *)
+Theorem held_bound_buffered :
+  forall (P : Type) (sep : bytes) (limit sizehint : nat) (keep_end : bool) (dec : decoder P),
+    sep <> [] -> length sep + 1 <= limit ->
+    forall (fills : list bytes) (fuel : nat),
+      length (concat fills) < fuel ->
+      fills_fit (bru_framer sep limit keep_end dec) sizehint fuel (bcinit _) fills ->
+      exists c' evs,
+        bcfills (bru_framer sep limit keep_end dec) sizehint fuel (bcinit _) fills = (c', evs) /\
+        match bmem c' with Some m => length m = limit | None => True end /\
+        match bcons c' with Some (buflen, _) => buflen + 2 <= limit | None => True end.
+Proof. intros P sep limit sizehint keep_end dec Hne Hl fills fuel. exact (held_bound_buffered_l sep limit sizehint keep_end dec Hne Hl fills fuel). Qed.
+Print Assumptions held_bound_buffered.
+
+(* Buffer-filling path: unterminated data of limit - 1 bytes or more always raises the limit error. *)
+Theorem overrun_is_raised_buffered :
+  forall (P : Type) (sep : bytes) (limit sizehint : nat) (keep_end : bool) (dec : decoder P),
+    sep <> [] -> length sep + 1 <= limit ->
+    forall (fills : list bytes) (fuel : nat),
+      find0 sep (concat fills) = None -> limit < length (concat fills) + 2 -> length (concat fills) < fuel ->
+      fills_fit (bru_framer sep limit keep_end dec) sizehint fuel (bcinit _) fills ->
+      exists c' evs, bcfills (bru_framer sep limit keep_end dec) sizehint fuel (bcinit _) fills = (c', RErr ELimit :: evs).
+Proof. intros P sep limit sizehint keep_end dec Hne Hl fills fuel. exact (overrun_raised_buffered_l sep limit sizehint keep_end dec Hne Hl fills fuel). Qed.
+Print Assumptions overrun_is_raised_buffered.
+
 (* non-vacuity / tightness witnesses *)
 Example overrun_witness :
   exists c' evs, cdeliver (ru_framer [10%N] 3 false (fun b : bytes => Some b)) 20 (cinit _) [[1; 2]; [3; 4]; [5]]%N
